@@ -287,6 +287,7 @@ impl BDF {
 
             let mut h_try = current_h;
             if h_try > hmax {
+                #[cfg(ivp_verif)] crate::verif_trace::emit("bdf_hmax", 0.0);
                 let factor = hmax / h_try;
                 change_d(&mut d, order, factor, &mut scratch_change);
                 h_try = hmax;
@@ -295,6 +296,7 @@ impl BDF {
                 lu_is_current = false;  // Step size changed
             }
             if h_try < hmin && hmin > 0.0 {
+                #[cfg(ivp_verif)] crate::verif_trace::emit("bdf_hmin", 0.0);
                 let factor = (hmin / h_try).max(1.0);
                 change_d(&mut d, order, factor, &mut scratch_change);
                 h_try = hmin;
@@ -307,11 +309,13 @@ impl BDF {
             let x_start = x;
             let mut x_new = x + h_signed;
             if direction * (x_new - xend) > 0.0 {
+                #[cfg(ivp_verif)] crate::verif_trace::emit("bdf_beyond", 0.0);
                 let step_to_end = (xend - x).abs();
                 // xend has been reached, exactly or up to the rounding of the accumulated steps:
                 // a remaining sliver of a few ulp is not a step to take (it would only trip the
                 // step-size-too-small guard below)
                 if step_to_end == 0.0 || step_to_end < 4.0 * Float::EPSILON * x.abs().max(xend.abs()) {
+                    #[cfg(ivp_verif)] crate::verif_trace::emit("bdf_arrive", 0.0);
                     status = Status::Success;
                     break;
                 }
@@ -368,6 +372,7 @@ impl BDF {
                     }
                     lu_matrix[(r, r)] += 1.0;
                 }
+                #[cfg(ivp_verif)] crate::verif_trace::emit("bdf_lu", 0.0);
                 evals.lu += 1;
                 match lu_decomp(&mut lu_matrix, &mut pivot) {
                     Ok(()) => {
@@ -375,6 +380,7 @@ impl BDF {
                         current_c = c;
                     }
                     Err(_) => {
+                        #[cfg(ivp_verif)] crate::verif_trace::emit("bdf_lu_sing", 0.0);
                         if hmin > 0.0 && h_try <= hmin {
                             // already at the lower step bound: it cannot be reduced any further
                             status = Status::StepSizeTooSmall;
@@ -455,6 +461,7 @@ impl BDF {
                 iters += 1;
             }
             if !converged {
+                #[cfg(ivp_verif)] crate::verif_trace::emit("bdf_noconv", iters as f64);
                 if hmin > 0.0 && h_try <= hmin {
                     // already at the lower step bound: it cannot be reduced any further
                     status = Status::StepSizeTooSmall;
@@ -472,6 +479,7 @@ impl BDF {
                 continue;
             }
 
+            #[cfg(ivp_verif)] crate::verif_trace::emit("bdf_conv", iters as f64);
             let safety = SAFETY_DEFAULT * (2.0 * newton_maxiter_val as Float + 1.0)
                 / (2.0 * newton_maxiter_val as Float + (iters + 1) as Float);
 
@@ -493,6 +501,7 @@ impl BDF {
             };
 
             if error_norm > 1.0 {
+                #[cfg(ivp_verif)] crate::verif_trace::emit("bdf_rej", order as f64);
                 if hmin > 0.0 && h_try <= hmin {
                     // already at the lower step bound: it cannot be reduced any further
                     status = Status::StepSizeTooSmall;
@@ -507,6 +516,7 @@ impl BDF {
                 continue;
             }
 
+            #[cfg(ivp_verif)] crate::verif_trace::emit("bdf_acc", order as f64);
             steps.accepted += 1;
             n_equal_steps += 1;
             x = x_new;
@@ -614,6 +624,7 @@ impl BDF {
                 let old_order = order;  // Save before updating
                 change_d(&mut d, new_order, step_factor, &mut scratch_change);
                 current_h *= step_factor;
+                #[cfg(ivp_verif)] crate::verif_trace::emit("bdf_order", new_order as f64);
                 order = new_order;
                 n_equal_steps = 0;
                 lu_is_current = false;  // Order or step changed
